@@ -383,6 +383,9 @@ func lookup(i *interpreter, instr *ssa.Lookup, x, idx value) value {
 // numeric datatypes and strings.  Both operands must have identical
 // dynamic type.
 func binop(i *interpreter, op token.Token, t, yt types.Type, x, y value) value {
+	if r, ok := i.ptrIntBinop(op, x, y); ok {
+		return r
+	}
 	if isSym(x) || isSym(y) {
 		return i.symBinop(op, t, yt, x, y)
 	}
@@ -1242,6 +1245,9 @@ func conv(i *interpreter, t_dst, t_src types.Type, x value) value {
 	ut_src := t_src.Underlying()
 	ut_dst := t_dst.Underlying()
 
+	if r, ok := i.convUnsafe(t_dst, t_src, x); ok {
+		return r
+	}
 	if s, ok := x.(*sym); ok {
 		return i.symConv(basicKind(t_dst), s)
 	}
